@@ -24,6 +24,8 @@ def check(chk, fx):
     from .. import ownrules
     ownrules.bufref(chk, fx, 6)
     from .. import primrules
+    primrules.prims(chk, fx, "OVL")
+    from .. import primrules
     primrules.prims(chk, fx, "BUFIT", "CVEC2")
     cexrules.stacksel(chk, fx)
     caprules.cap_k(chk, fx)
